@@ -96,12 +96,16 @@ func c15Step(c *Ctx, r *Report, rr, step *ssa.Function) map[string]bool {
 	L := affSym(an.u.sym("buflen("+bkey+")", 0, maxLen))
 	// classifier result
 	var expected *Aff
+	var verdict *Sym // identity of the error value the classifier returned
 	for _, cr := range an.calls {
 		if cr.frame == fr && cr.callee != nil && cr.callee.Name() == "LooksLikeModbusTCP" {
 			if t, ok := cr.res.(ATuple); ok && len(t) == 2 {
 				if n, ok := t[0].(AInt); ok {
 					a := n.a
 					expected = &a
+				}
+				if ref, ok := t[1].(ARef); ok {
+					verdict = ref.idSym
 				}
 			}
 			if s, ok := cr.args[0].(ASlice); ok {
@@ -186,6 +190,19 @@ func c15Step(c *Ctx, r *Report, rr, step *ssa.Function) map[string]bool {
 		}
 		consumed := rs.state.entails(atomEQ(out, L.sub(*expected))) || rs.state.entails(atomEQ(out, affConst(0)))
 		closing := closeC.f != nil && closeC.f.kind == fConst && closeC.f.b
+		if closeC.f == nil || closeC.f.kind != fConst || closeC.f.b {
+			// the connection (and with it every request still buffered or on its way) is given up only
+			// on the classifier's own verdict: the state pins the classifier's error to one sentinel
+			pinned := false
+			if verdict != nil {
+				for id := int64(1); id <= int64(len(an.u.ids)); id++ {
+					if rs.state.entails(atomEQ(affSym(verdict), affConst(id))) {
+						pinned = true
+					}
+				}
+			}
+			rep("R15.2", pinned, "the connection is given up only where the classifier has declared the stream not to be Modbus TCP", "state: "+truncate(rs.state.String(), 300), "close-without-verdict", pos)
+		}
 		rep("R15.2", consumed, "a return that answers has removed exactly the answered frame (or everything) from the buffer", fmt.Sprintf("unread length after: %s, before: %s, frame: %s", out.String(), L.String(), expected.String()), "leftover-bytes", pos)
 		if !consumed && closing {
 			rep("R15.2", true, "connection is closed on this path", "", "", pos)
